@@ -9,5 +9,7 @@ CONSTANTS
   Seeds <- MCSeeds
   Cases <- MCCases
   Policies <- One
+  Configs <- AllConfigs
+  ConfigDepth = 9
 ACTION_CONSTRAINT LeakWitness
 CHECK_DEADLOCK FALSE
